@@ -65,6 +65,17 @@ type Service struct {
 
 // CreatePin implements Interface.CreatePin method.
 func (s *Service) CreatePin(ctx context.Context, ref boson.Address, traverse bool) error {
+	// A reference that is already pinned stays as it is: walking it again
+	// would raise the pin counter of every chunk a second time, and a single
+	// DeletePin would then leave all of them pinned.
+	key := rootPinKey(ref)
+	switch err := s.rhStorage.Get(key, new(boson.Address)); {
+	case err == nil:
+		return nil
+	case !errors.Is(err, storage.ErrNotFound):
+		return fmt.Errorf("unable to pin %q: %w", ref, err)
+	}
+
 	// iterFn is a pinning iterator function over the leaves of the root.
 	ctx = sctx.SetRootHash(ctx, ref)
 	iterFn := func(leaf boson.Address) error {
@@ -83,18 +94,21 @@ func (s *Service) CreatePin(ctx context.Context, ref boson.Address, traverse boo
 		}
 	}
 
-	key := rootPinKey(ref)
-	switch err := s.rhStorage.Get(key, new(boson.Address)); {
-	case errors.Is(err, storage.ErrNotFound):
-		return s.rhStorage.Put(key, ref)
-	case err != nil:
-		return fmt.Errorf("unable to pin %q: %w", ref, err)
-	}
-	return nil
+	return s.rhStorage.Put(key, ref)
 }
 
 // DeletePin implements Interface.DeletePin method.
 func (s *Service) DeletePin(ctx context.Context, ref boson.Address) error {
+	// A reference that is not pinned has nothing to give back: walking it
+	// would lower the pin counter of chunks it shares with pinned references.
+	key := rootPinKey(ref)
+	switch err := s.rhStorage.Get(key, new(boson.Address)); {
+	case errors.Is(err, storage.ErrNotFound):
+		return nil
+	case err != nil:
+		return fmt.Errorf("unable to unpin %q: %w", ref, err)
+	}
+
 	var iterErr error
 	ctx = sctx.SetRootHash(ctx, ref)
 	// iterFn is a unpinning iterator function over the leaves of the root.
@@ -114,7 +128,6 @@ func (s *Service) DeletePin(ctx context.Context, ref boson.Address) error {
 		return multierror.Append(ErrTraversal, iterErr)
 	}
 
-	key := rootPinKey(ref)
 	if err := s.rhStorage.Delete(key); err != nil {
 		return fmt.Errorf("unable to delete pin for key %q: %w", key, err)
 	}
